@@ -80,6 +80,53 @@ def child_hops(db, root, pre, seg):
     return walk(start, seg)[1]
 
 
+def reuse_check(t, paths):
+    from trie.exceptions import TraversedPartialPath
+
+    def obs(f):
+        try:
+            n = f()
+            return ("node", n.sub_segments, n.value, n.suffix, n.raw, n.node_type)
+        except TraversedPartialPath as e:
+            return ("partial", e.nibbles_traversed, e.node, e.untraversed_tail, e.simulated_node)
+        except Exception as e:
+            return ("exc", type(e).__name__)
+
+    by_pre = {}
+    for p in paths:
+        for cut in range(len(p) + 1):
+            by_pre.setdefault(tuple(p[:cut]), set()).add(tuple(p[cut:]))
+    done = 0
+    for pre, segs in sorted(by_pre.items(), key=lambda kv: -len(kv[1])):
+        if len(segs) < 3 or done >= 6:
+            continue
+        try:
+            parent = t.traverse(pre)
+        except Exception:
+            continue
+        done += 1
+        segs = sorted(segs, key=lambda s_: (len(s_), s_))
+        for rnd in range(2):                      # twice: the second round sees whatever the first one left behind
+            for seg in segs:
+                if not seg:
+                    continue
+                got = obs(lambda: t.traverse_from(parent, seg))
+                want = obs(lambda: t.traverse(pre + seg))
+                if got[0] == "partial" and want[0] == "partial":
+                    same = (tuple(pre) + tuple(got[1]) == tuple(want[1])) and got[2:] == want[2:]
+                else:
+                    same = got == want
+                if not same:
+                    return (f"traverse_from(<node obtained once at {pre} and reused>, {seg}) = {got[0]} differs from "
+                            f"traverse({pre + seg}) = {want[0]}")
+        try:
+            if parent != t.traverse(pre):
+                return f"the node obtained at {pre} changed while it was used as the start of traverse_from calls"
+        except Exception:
+            pass
+    return None
+
+
 def ann4(h):
     """(sub_segments, value, suffix, type) of a hnode observation"""
     return [h[0], h[1], h[2], h[4]]
@@ -170,6 +217,11 @@ def run_case(case, tier):
         hops = child_hops(backing, bytes(t.root_hash), pre, seg)
         if hops is not None and nreads > hops:
             bad = f"traverse_from(node at {pre}, {seg}) read the database {nreads} times over {hops} child hop(s)"
+    # one node object obtained at a prefix and then REUSED for several traverse_from calls (a walker keeps parents in its
+    # frontier cache): every call must equal traverse(prefix + segment), also after an earlier call ended inside a leaf or
+    # extension below that node
+    if bad is None:
+        bad = reuse_check(t, paths)
     if bad is None:
         for p in paths[:15]:
             o = res[tuple(p)]
